@@ -56,9 +56,12 @@ func (m *mockStream) ReadMessage() ([]byte, error) {
 	if msgLen > quic.MaxMsgSize {
 		return nil, fmt.Errorf("message too large: %d", msgLen)
 	}
-	buf := make([]byte, msgLen)
-	if _, err := io.ReadFull(m.r, buf); err != nil {
+	buf, err := io.ReadAll(io.LimitReader(m.r, int64(msgLen)))
+	if err != nil {
 		return nil, err
+	}
+	if uint32(len(buf)) != msgLen {
+		return nil, io.ErrUnexpectedEOF
 	}
 	return buf, nil
 }
